@@ -1734,6 +1734,9 @@ def lt(left: Any, right: Any) -> bool:
   # we detect such types to make `lt` to run faster.
   if isinstance(left, (int, float, bool, str)):
     return left < right
+  elif left is None or isinstance(left, utils.MissingValue):
+    # `None` (or the missing marker) is never less than itself.
+    return False
   elif isinstance(left, list):
     min_len = min(len(left), len(right))
     for i in range(min_len):
